@@ -94,4 +94,6 @@ class CircuitUnitary(Unitary):
                 gate.name = "C" + gate.name
                 gate.control = clist
 
-        return new_circuit
+        # The control qubits lie outside the register of the input circuit: rebuild from the modified gates,
+        # without the fixed width the input circuit may carry.
+        return Circuit(new_circuit._gates)
